@@ -437,42 +437,55 @@ package anchoring
 //@ wire ReferencePointDifference
 //@   property C01 C19 C20
 //@   json ReferencePoint=referencePoint Coefficients=coefficients
+//@   gotypes ReferencePoint=model.Alternative Coefficients=model.Weights
 //@ wire ReferencePointsDifference
 //@   property C01 C19 C20
 //@   json Alternative=alternative ReferencePointsDifference=referencePointsDifference
+//@   gotypes Alternative=model.AlternativeWithCriteria ReferencePointsDifference=[]ReferencePointDifference
 //@ wire ScaleWithValueRange
 //@   property C01 C19 C20
 //@   json Scale=scale ValuesRange=valuesRange
+//@   gotypes Scale=float64 ValuesRange=utils.ValueRange
 //@ wire AnchoringParams
 //@   property C01 C19 C20
 //@   json AnchoringAlternatives=anchoringAlternatives Loss=loss Gain=gain ReferencePoints=referencePoints Applier=applier
+//@   gotypes AnchoringAlternatives=[]AnchoringAlternative Loss=FunctionDefinition Gain=FunctionDefinition ReferencePoints=FunctionDefinition Applier=FunctionDefinition
 //@ wire AnchoringAlternative
 //@   property C01 C19 C20
 //@   json Alternative=alternative Coefficient=coefficient
+//@   gotypes Alternative=model.Alternative Coefficient=float64
 //@ wire AnchoringAlternativeWithCriteria
 //@   property C01 C19 C20
 //@   json Alternative=alternative Coefficient=coefficient
+//@   gotypes Alternative=model.AlternativeWithCriteria Coefficient=float64
 //@ wire AnchoringResult
 //@   property C01 C19 C20
 //@   json ReferencePoints=referencePoints CriteriaScaling=criteriaScaling PerReferencePointsDifferences=perReferencePointsDifferences ApplierResult=applierResult,omitempty
+//@   gotypes ReferencePoints=[]model.AlternativeWithCriteria CriteriaScaling=CriteriaScaling PerReferencePointsDifferences=[]ReferencePointsDifference ApplierResult=AnchoringApplierResult
 //@ wire InlineAnchoringApplierParams
 //@   property C01 C19 C20
 //@   json ApplyOnNotConsidered=applyOnNotConsidered
+//@   gotypes ApplyOnNotConsidered=bool
 //@ wire InlineAnchoringApplierResult
 //@   property C01 C19 C20
 //@   json AppliedDifferences=appliedDifferences
+//@   gotypes AppliedDifferences=[]model.AlternativeWithCriteria
 //@ wire NewCriterionAnchoringApplierParams
 //@   property C01 C07 C19 C20
 //@   json RandomSeed=randomSeed
+//@   gotypes RandomSeed=int64
 //@ wire AddedCriterion
 //@   property C01 C07 C19 C20
 //@   json Id=id Type=type ValuesRange=valuesRange MethodParameters=methodParameters AlternativesValues=alternativesValues
+//@   gotypes Id=string Type=model.CriterionType ValuesRange=utils.ValueRange MethodParameters=model.MethodParameters AlternativesValues=model.Weights
 //@ wire NewCriterionAnchoringApplierResult
 //@   property C01 C07 C19 C20
 //@   json ReferenceCriterion=referenceCriterion AddedCriteria=addedCriteria
+//@   gotypes ReferenceCriterion=model.Criterion AddedCriteria=[]AddedCriterion
 //@ wire FunctionDefinition
 //@   property C01 C20
 //@   json Function=function Params=params
+//@   gotypes Function=string Params=FunctionParams
 
 // ---- registered names (what a request must say to select this object; what error messages list)
 //@ func (*Anchoring).Identifier
